@@ -69,4 +69,70 @@ end
 instance : Repr BStmt := ⟨fun _ _ => "<statement>"⟩
 instance : Repr BBlock := ⟨fun _ _ => "<block>"⟩
 
+/-! ### arithmetic methods (token bucket), translated statement by statement (tools/facts/sec_arith.go)
+
+Go `int` expressions become `IExp`, `float64` / `time.Time` / `time.Duration` expressions become `RExp` (times and durations in
+seconds), conditions `CExp`. Field and variable names are the ones of the source. -/
+
+/-- the fields of `tokenBucket` the methods compute with -/
+inductive Fld | tokens | capacity | refillRate | idealRate | lastRefill | penaltyUntil | failureCount | other (name : String)
+deriving DecidableEq, Repr
+
+/-- local variables and parameters are numbered in order of first appearance in the method (their names are identifiers
+without meaning; facts.json keeps them) -/
+inductive IExp
+  | lit (n : Int)
+  | fld (f : Fld)                     -- tb.<f>, an int field
+  | param (p : Nat)                   -- an int parameter of the method
+  | add (a b : IExp)
+  | sub (a b : IExp)
+  | unknown (src : String)
+deriving DecidableEq, Repr
+
+inductive RExp
+  | lit (q : Rat)                     -- a literal or a named constant (a Duration constant: its nanoseconds)
+  | fld (f : Fld)                     -- tb.<f>, a float or time field
+  | loc (x : Nat)                     -- a local variable
+  | now                               -- tb.nowFunc()
+  | add (a b : RExp)                  -- also t.Add(d)
+  | sub (a b : RExp)                  -- also t.Sub(u).Seconds()
+  | mul (a b : RExp)
+  | min (a b : RExp)
+  | max (a b : RExp)
+  | pow (base : Rat) (e : IExp)       -- math.Pow(<constant>, float64(<int expression>))
+  | ofInt (e : IExp)                  -- float64(<int expression>)
+  | durOfNs (e : RExp)                -- time.Duration(<float expression>): nanoseconds, truncated, as a duration
+  | unknown (src : String)
+deriving DecidableEq, Repr
+
+inductive CExp
+  | cmpR (op : Cmp) (a b : RExp)      -- also t.Before(u) (lt) and t.After(u) (gt)
+  | cmpI (op : Cmp) (a b : IExp)
+  | and (a b : CExp)
+  | or (a b : CExp)
+  | not (a : CExp)
+  | unknown (src : String)
+deriving DecidableEq, Repr
+
+mutual
+inductive AStmt
+  | setF (f : Fld) (e : RExp)         -- tb.<f> = e   (also += -= ++ --)
+  | setI (f : Fld) (e : IExp)         -- tb.<f> = e for an int field
+  | setL (x : Nat) (e : RExp)         -- x := e / x = e
+  | ite (c : CExp) (t e : ABlock)     -- if / else, switch { case … }
+  | ret                               -- return
+  | lock                              -- tb.mu.Lock()
+  | unlock                            -- tb.mu.Unlock()
+  | deferUnlock                       -- defer tb.mu.Unlock()
+  | sleep                             -- time.Sleep(…)
+  | callRefill                        -- tb.refill() on the same bucket
+  | opaque (src : String)             -- not understood by the translator
+inductive ABlock
+  | nil
+  | cons (s : AStmt) (rest : ABlock)
+end
+
+instance : Repr AStmt := ⟨fun _ _ => "<statement>"⟩
+instance : Repr ABlock := ⟨fun _ _ => "<block>"⟩
+
 end Zeno
